@@ -32,6 +32,20 @@ fn main() {
         .and_then(|s| s.parse().ok())
         .unwrap_or_else(|| std::thread::available_parallelism().map(|n| n.get()).unwrap_or(8));
     let cmd = args[1].as_str();
+    if cmd == "export-fuzz-seeds" {
+        let dir = PathBuf::from(&args[2]);
+        let n: usize = args.get(3).and_then(|s| s.parse().ok()).unwrap_or(200);
+        match vh::props::robust::export_fuzz_seeds(&dir, n, seed) {
+            Ok(k) => {
+                println!("wrote {} seed files under {}", k, dir.display());
+                std::process::exit(0);
+            }
+            Err(e) => {
+                eprintln!("{}", e);
+                std::process::exit(2);
+            }
+        }
+    }
     let id = args[2].as_str();
     let prop = match vh::props::property(id) {
         Some(p) => p,
